@@ -37,8 +37,9 @@ class Memory:
     def add_space(self, name, size, fill=UNINIT):
         self.tags[name] = np.full(int(size), fill, dtype=np.int64)
 
-    def map_region(self, region, space, base, size):
-        self.regions[region] = (space, int(base), int(size))
+    def map_region(self, region, space, base, size, lo=0):
+        """addresses [lo, size) of `region` live at space[base + addr]"""
+        self.regions[region] = (space, int(base), int(size), int(lo))
 
     def clone(self):
         m = Memory()
@@ -96,16 +97,16 @@ def resolve(mem, region, addrs, width, viol, op, what, write):
     if region not in mem.regions:
         viol.append(Violation(prop="C02", oracle="unknown_region", op=op.idx, what=what, region=region))
         return None
-    space, base, size = mem.regions[region]
+    space, base, size, lo_ok = mem.regions[region]
     if len(addrs) == 0:
         return space, addrs, None
     lo = int(addrs.min())
     hi = int(addrs.max()) + width
     mask = None
-    if lo < 0 or hi > size:
+    if lo < lo_ok or hi > size:
         if not any(v.get("oracle") == "out_of_extent" and v.get("op") == op.idx and v.get("what") == what for v in viol):
             viol.append(Violation(prop="C02", oracle="out_of_extent", op=op.idx, what=what, region=region, lo=lo, hi=hi, extent=size))
-        mask = (addrs >= 0) & (addrs + width <= size)
+        mask = (addrs >= lo_ok) & (addrs + width <= size)
         addrs = addrs[mask]
     if write and region == 0:
         viol.append(Violation(prop="C02", oracle="write_to_constants", op=op.idx, what=what))
